@@ -98,7 +98,7 @@ Proof.
     + apply (CInv_keep t ths s tr th); auto.
     + (* FPut *)
       destruct HCI as (U & HI & HP & Hc0 & Hc1). destruct (pending_upd t ths th Hn) as (R & HR1 & HR2).
-      exists (pushU U (Push (Some m) now)). split; [apply put_inv; auto|]. split; [|split].
+      exists (pushU U (Push (Some m) now now)). split; [apply put_inv; auto|]. split; [|split].
       * rewrite putmsgs_app, delivered_app. cbn [putmsgs delivered flat_map]. rewrite !app_nil_r. rewrite (HR2 _). unfold pth at 1; cbn [stack flat_map app].
         rewrite HP, HR1, Hpth. cbn [pending_f app pushU]. destruct (mty m =? AUDIT_EOE); rewrite ?app_nil_r; auto.
         rewrite !app_assoc. apply Permutation_app_tail. auto.
